@@ -30,7 +30,7 @@ def corpus():
 
 
 def generate(rng, tier):
-    n = 300 if tier == "quick" else 12000
+    n = 400 if tier == "quick" else 12000
     for _ in range(n):
         root = rng.choice(["cube", "cube", "cube", "seq", "coll"])
         nd = rng.choice([1, 2, 2, 3, 3, 4]) if root == "cube" else rng.choice([2, 3])
@@ -44,7 +44,7 @@ def generate(rng, tier):
         yield {"root": root, "shape": shape, "fam": fam, "wseed": rng.randrange(10**6), "ecs": ecs,
                "mask": rng.random() < 0.5, "unc": rng.choice([None, "std", "std", "var", "unknown"]),
                "unit": rng.choice([None, "ct", "ct"]), "pre": rng.choice([None, None, "slice", "rebin"]),
-               "nsteps": rng.choice([2, 3, 4, 5, 6, 6]), "seed": rng.randrange(10**6)}
+               "nsteps": rng.choice([2, 3, 4, 5, 6, 6]), "seed": rng.randrange(10**6), "nans": rng.random() < 0.3}
 
 
 # ------------------------------------------------------------------ construction
@@ -60,7 +60,10 @@ def make_cube(case, k=0, shape=None):
         wcs = W.make_wcs(rng, tuple(shape), case["fam"], True)
     n = int(np.prod(shape))
     unc = {None: None, "std": StdDevUncertainty, "var": VarianceUncertainty, "unknown": UnknownUncertainty}[case["unc"]]
-    cube = NDCube(C.payload(tuple(shape), k) + 1.0, wcs=wcs, unit=case["unit"],
+    payload = C.payload(tuple(shape), k) + 1.0
+    if case.get("nans") and n > 2:
+        payload.flat[1::5] = np.nan          # not the first element of the array, several blocks
+    cube = NDCube(payload, wcs=wcs, unit=case["unit"],
                   mask=(np.arange(n).reshape(shape) % 3 == 0) if case["mask"] else None,
                   uncertainty=None if unc is None else unc((np.arange(n, dtype=float).reshape(shape) % 4 + 1) * 0.5),
                   meta={"cube": k, "nested": {"a": [1, 2]}})
@@ -169,8 +172,12 @@ def cube_ops(c, rng, case):
     multi = any(len(t[0]) > 1 if isinstance(t[0], tuple) else False for t in getattr(c.extra_coords, "_lookup_tables", []))
     if any(b > 1 for b in bins) and not multi:
         prop = isinstance(c.uncertainty, StdDevUncertainty)
-        oper = rng.choice([np.mean, np.sum])
-        ops.append(("rebin", "rebin", lambda: c.rebin(bins, operation=oper, propagate_uncertainties=prop)))
+        has_nan = bool(np.isnan(np.asarray(C.materialize(c.data), dtype=float)).any())
+        oper = rng.choice([np.nansum, np.nanmean] if has_nan else [np.mean, np.sum, np.nansum, np.nanmean])
+        rebin_op = ("rebin", "rebin", lambda: c.rebin(bins, operation=oper, propagate_uncertainties=prop))
+        # in-place bookkeeping of the uncertainty propagation is where rebin could reach its source:
+        # give that combination more weight
+        ops += [rebin_op] * (4 if (prop and has_nan) else 1)
     k = rng.choice([2, -3, 0.5])
     ar = rng.choice(["mul", "neg", "div", "addq", "pow", "to"])
     if ar == "mul":
